@@ -23,7 +23,7 @@ Driver for C02.  Request line (fields `k=v` separated by single spaces, values w
 
 Answer:  model=<dump> spec=<dump> ops=<m/s;m/s;…|_> lazy0=<idxs> lazy1=<idxs> desc=<idxs>
   (`lazy0`: root.iter_lazy() with nothing built, `lazy1`: with the `lz` state, `desc`: root.iter_descendants();
-   for croot/cprec/cfoll the spec part carries `!` when the operands leave the context root's subtree = F02e region)
+   croot/cprec/cfoll: any context root of the tree or none; since fix-c02-5 no finding region inside one tree)
   model dump: `ERR:type` | `ERR:bad` | nodes `kind,name,pos,parentIdx,sv` joined by `|`
   spec  dump: `ERR` | nodes `kind,name,parentIdx,sv` in document order joined by `|`
   kinds: D E N A T C P.  ops: model/spec, booleans T F, lists i.j.k or _, `-` = empty / error.
@@ -255,26 +255,15 @@ def answerTreeOp (root : PNode) (nodes : List Rec) (items : List Item) (op : Str
       let m := ctxGetRoot root (cr.map (posOfIdx nodes)) allBuilt (posOfIdx nodes k)
       let inS := inScopeOf items cr k
       let sp := if inS then cr else some 0
-      some s!"{match m with | some p => idxOfPos nodes p | none => "-"}/{showON sp}{if inS then "" else "!"}"
+      some s!"{match m with | some p => idxOfPos nodes p | none => "-"}/{showON sp}"
     | _, _ => some "bad"
   | [nm, c, a, b] =>
     if nm == "cprec" || nm == "cfoll" then
       match parseCtx c, nat? a, nat? b with
       | some cr, some a, some b =>
         let m := ctxPrecedes root (cr.map (posOfIdx nodes)) (nm == "cfoll") (posOfIdx nodes a) (posOfIdx nodes b)
-        -- exact F02e region: the walk over the context root's subtree decides wrongly iff exactly one
-        -- operand lies inside and the outside one precedes it, or none lies inside and no operand is
-        -- the document (which would be walked as a document-valued variable)
-        let inA := inScopeOf items cr a
-        let inB := inScopeOf items cr b
-        let isDoc (k : Nat) : Bool := (items[k]?.map fun it => it.kind == .document).getD false
-        let wrong : Bool :=
-          if a == b then false
-          else if inA && inB then false
-          else if inA != inB then (if inA then b < a else a < b)
-          else !(isDoc a || isDoc b)
         let sp := if nm == "cfoll" then specFollows a b else specPrecedes a b
-        some s!"{showOB m}/{showB sp}{if wrong then "!" else ""}"
+        some s!"{showOB m}/{showB sp}"
       | _, _, _ => some "bad"
     else none
   | ["reget", f, k] =>
